@@ -27,6 +27,7 @@ class AST:
         self.enums = {}
         self.enumconst = {}   # id -> (value, enum decl)
         self.functions = {}   # qualified name -> [decl with body]
+        self.typedefs = {}    # qualified alias name -> underlying type spelling
         self._file = None
         self._line = None
         for d in docs:
@@ -93,8 +94,14 @@ class AST:
             return
         if k == 'ClassTemplateDecl':
             for c in n.get('inner', []):
-                if c.get('kind') in ('CXXRecordDecl', 'ClassTemplateSpecializationDecl'):
+                if c.get('kind') == 'CXXRecordDecl':
+                    mark_pattern(c)      # the dependent pattern: never emitted
                     self._index(c, ctx)
+                elif c.get('kind') == 'ClassTemplateSpecializationDecl':
+                    self._index(c, ctx)
+            return
+        if k == 'ClassTemplatePartialSpecializationDecl':
+            mark_pattern(n)
             return
         if k == 'EnumDecl':
             q = '::'.join(ctx + [name or '_anon'])
@@ -130,12 +137,16 @@ class AST:
             q = '::'.join(ctx + [name or '_anon'])
             n['_qname'] = q
             n['_ctx'] = '::'.join(ctx)
-            if has_body(n):
+            if has_body(n) and not n.get('_pattern'):
                 self.functions.setdefault(q, []).append(n)
             # local classes / lambdas inside bodies are found lazily
             return
         if k == 'VarDecl':
             n['_qname'] = '::'.join(ctx + [name or '_anon'])
+            return
+        if k in ('TypeAliasDecl', 'TypedefDecl') and name:
+            t = n.get('type') or {}
+            self.typedefs['::'.join(ctx + [name])] = t.get('desugaredQualType') or t.get('qualType') or ''
             return
         if k in ('LinkageSpecDecl',):
             for c in n.get('inner', []):
@@ -143,6 +154,14 @@ class AST:
 
     def find_functions(self, qname):
         return self.functions.get(qname, [])
+
+
+def mark_pattern(n):
+    if n.get('kind') in ('CXXMethodDecl', 'CXXConstructorDecl', 'FunctionDecl', 'CXXConversionDecl', 'CXXDestructorDecl'):
+        n['_pattern'] = True
+    for c in n.get('inner', []):
+        if c.get('kind') not in ('CompoundStmt',):
+            mark_pattern(c)
 
 
 def has_body(fn):
@@ -230,7 +249,8 @@ def dump_ast(inst_cpp, filt, repo_include, cache_dir=None, extra=()):
                 p = os.path.join(root, f)
                 h.update(p.encode())
                 h.update(open(p, 'rb').read())
-        key = os.path.join(cache_dir, h.hexdigest()[:24] + '.json')
+        prefix = re.sub(r'[^A-Za-z0-9]+', '_', os.path.basename(inst_cpp) + '__' + filt) + '__'
+        key = os.path.join(cache_dir, prefix + h.hexdigest()[:24] + '.json')
         if os.path.exists(key):
             return AST(load_docs(open(key).read()), filt), cmd
     r = subprocess.run(cmd, stdout=subprocess.PIPE, stderr=subprocess.PIPE, text=True)
@@ -241,4 +261,11 @@ def dump_ast(inst_cpp, filt, repo_include, cache_dir=None, extra=()):
         tmp = key + '.%d.tmp' % os.getpid()
         open(tmp, 'w').write(r.stdout)
         os.replace(tmp, key)
+        # one cached dump per (driver, filter): older working-tree states are dropped
+        for f in os.listdir(cache_dir):
+            if f.startswith(prefix) and os.path.join(cache_dir, f) != key and f.endswith('.json'):
+                try:
+                    os.remove(os.path.join(cache_dir, f))
+                except OSError:
+                    pass
     return AST(load_docs(r.stdout), filt), cmd
